@@ -875,7 +875,16 @@ func (w *World) RedefineCall(target *argmapper.Func, args []argmapper.Arg) (rf *
 			// fresh value given for it may carry an extra subtype label -- and
 			// then travels on under the declared label of its OWN input too:
 			// the wrapper cannot see the label its caller used)
-			if (other.Tok != in.Tok || declared[j] != in.L) && RPlus(declared[j], in.L) {
+			if other.Tok == in.Tok && (declared[j] == in.L || !w.requires(declared[j])) {
+				// (its OWN input counts only where the subtype-less label the
+				// redefined function declares is a requirement that really
+				// exists -- a parameter of the target or of a converter. A
+				// declaration that merely DROPPED the subtype of the one
+				// requirement behind it would let a value labelled "t" into a
+				// parameter labelled "s": defect D42)
+				continue
+			}
+			if RPlus(declared[j], in.L) {
 				alt := declared[j]
 				alt.Dyn = in.L.Type
 				org.Alt = append(org.Alt, alt)
@@ -914,6 +923,21 @@ func (w *World) RedefineCall(target *argmapper.Func, args []argmapper.Arg) (rf *
 		o = w.Call(rf, callArgs)
 	}
 	return rf, nil, "", fresh, o
+}
+
+// requires reports whether some realized function (target, converter,
+// generated converter) has a parameter labelled exactly like l (name, type,
+// subtype; for an interface-typed parameter the declared label carries its
+// first implementer, see RedefineCall).
+func (w *World) requires(l Label) bool {
+	for _, fs := range w.Specs {
+		for _, p := range fs.In {
+			if p.Name == l.Name && p.Sub == l.Sub && (p.Type == l.Type || (IsIface(p.Type) && Implements(l.Type, p.Type))) {
+				return true
+			}
+		}
+	}
+	return false
 }
 
 // Prime writes values into the value sets of already realized functions the
